@@ -21,6 +21,8 @@ pub fn plan() -> Plan {
     p.w.connect = 12;
     p.w.stall = 5;
     p.max_connections = 6;
+    // a client holding a plain and a shared subscription on one filter is parked twice in one log
+    p.shared_pm = 200;
     p.ops = (30, 140);
     p.burst_pm = 40;
     let mut single = p.clone();
@@ -34,6 +36,7 @@ pub fn plan() -> Plan {
         thorough_histories: 80000,
         s5: Some((2, 30, s4common::s5_default(true, 0))),
         enumerate_session_end: None,
+        enumerate_symbols: None,
     }
 }
 
